@@ -28,7 +28,7 @@ import (
 // Reopen closes the engine (a graceful shutdown: pending memory databases are flushed by Close) and opens it again
 // on the same directory with the same database / shards.
 func (b *Box) Reopen() error {
-	b.Engine.Close()
+	b.Close() // also stops the worker pools of this database object (see Close)
 	nb, err := Open(b.Dir, b.DBName, b.Opt, b.ShardIDs)
 	if err != nil {
 		return err
